@@ -54,6 +54,10 @@ type rec struct {
 	t0    int64 // virtual ns when it was recorded
 	tag   string
 	newer map[string]bool // distinct other items presented to the cache after it was recorded
+	// newerNew: distinct other items *recorded as new entries* after it (never seen, or forgotten and
+	// recorded afresh): what the statement counts ("followed by fewer new distinct entries than its
+	// configured capacity"); re-presented (replayed) entries are not new
+	newerNew map[string]bool
 }
 
 type sys struct {
@@ -63,7 +67,13 @@ type sys struct {
 	ops     []op
 	trace   []string
 	tracing bool
+	path    []int // operations applied so far
 }
+
+// the first history (in search order, so one of the shortest) in which an entry is missed inside
+// the bounds as the statement words them; see Apply
+var strictMissPath []int
+var strictMissMsg string
 
 func newSys(capacity int, ops []op) *sys {
 	vsched.ManualNow = 0
@@ -72,6 +82,7 @@ func newSys(capacity int, ops []op) *sys {
 
 func (s *sys) Apply(i int) (string, bool) {
 	o := s.ops[i]
+	s.path = append(s.path, i)
 	if o.adv != 0 {
 		vsched.ManualNow += int64(o.adv)
 		if s.tracing {
@@ -93,7 +104,12 @@ func (s *sys) Apply(i int) (string, bool) {
 		}
 	}
 	record := func() {
-		s.ref[o.item] = &rec{t0: now, tag: o.tag, newer: map[string]bool{}}
+		for k, x := range s.ref {
+			if k != o.item {
+				x.newerNew[o.item] = true
+			}
+		}
+		s.ref[o.item] = &rec{t0: now, tag: o.tag, newer: map[string]bool{}, newerNew: map[string]bool{}}
 	}
 	if r == nil {
 		if got {
@@ -115,11 +131,27 @@ func (s *sys) Apply(i int) (string, bool) {
 		}
 		return "", true
 	}
+	if age < interval && len(r.newerNew) < s.cap && !got && (r.tag == "" || o.tag == "" || r.tag != o.tag) && strictMissPath == nil {
+		// inside the bounds as the statement words them (only re-presented entries came in between),
+		// outside the bounds the implementation keeps (every insertion into the current generation
+		// counts, also the refresh of a detected replay): reported under its own signature, the
+		// search goes on
+		strictMissPath = append([]int(nil), s.path...)
+		strictMissMsg = fmt.Sprintf("%q was recorded %v ago (< interval %v) and followed by %d new distinct entries (< capacity %d) plus re-presented ones, yet IsDuplicate(%q,%q)=false", o.item, age, interval, len(r.newerNew), s.cap, o.item, o.tag)
+	}
 	// Outside the bounds either answer is acceptable. "false" with a different (or empty) tag
 	// can only mean that the entry was forgotten and is recorded afresh; "false" with the same
 	// non-empty tag may also be a remembered retransmission, so no new obligation is assumed.
 	if !got && !(r.tag != "" && r.tag == o.tag) {
 		record()
+	} else if !got {
+		// same non-empty tag: a remembered retransmission, or a forgotten entry recorded afresh; for
+		// the count of new entries behind the others the second possibility is assumed
+		for k, x := range s.ref {
+			if k != o.item {
+				x.newerNew[o.item] = true
+			}
+		}
 	}
 	return "", true
 }
@@ -174,6 +206,7 @@ func cacheUnits(tier string) []runner.Unit {
 		for first := 0; first < len(ops); first++ {
 			first := first
 			us = append(us, runner.Unit{Name: fmt.Sprintf("cache-cap%d-first%02d", capacity, first), Cost: capacity, Run: func(u *runner.U) {
+				strictMissPath, strictMissMsg = nil, ""
 				r := seqx.Explore(seqx.Config{
 					New:      func() seqx.Sys { return newSys(capacity, ops) },
 					NumOps:   len(ops),
@@ -204,6 +237,16 @@ func cacheUnits(tier string) []runner.Unit {
 					}
 					u.Violation(sig, r.Violation, fmt.Sprintf("capacity=%d interval=%v history: %s", capacity, interval, strings.Join(s.trace, "; ")), fmt.Sprintf("cap=%d first=%d", capacity, first))
 				}
+				if strictMissPath != nil && r.Violation == "" {
+					s := newSys(capacity, ops)
+					s.tracing = true
+					path := strictMissPath
+					for _, o := range path {
+						s.Apply(o)
+					}
+					u.Violation("C06/cache/missed-replay/refreshed-entries-count-as-new", strictMissMsg, fmt.Sprintf("capacity=%d interval=%v history: %s", capacity, interval, strings.Join(s.trace, "; ")), fmt.Sprintf("cap=%d first=%d", capacity, first))
+				}
+				strictMissPath, strictMissMsg = nil, ""
 				if first == 0 {
 					u.Sample(fmt.Sprintf("capacity=%d depth<=%d alphabet=%v", capacity, depth, ops))
 				}
